@@ -1118,10 +1118,11 @@ impl TypeChecker {
                 self.unify(*span, ctx, self_ty, given_blob)?;
 
                 // Unify the fields with their real types
-                let ret = Some(self.push_type(Type::Unknown));
+                // (the literal returns from the function only if one of its parts does)
+                let mut ret = None;
                 for (key, expr) in fields {
                     let (inner_ret, expr_ty) = self.expression(expr, ctx)?;
-                    self.unify_option(*span, ctx, ret, inner_ret)?;
+                    ret = self.unify_option(*span, ctx, ret, inner_ret)?;
                     self.unify(expr.span(), ctx, expr_ty, fields_and_types[key].1)?;
                 }
 
@@ -1130,22 +1131,22 @@ impl TypeChecker {
 
             E::Collection { collection: Collection::Tuple, values, span } => {
                 let mut tys = Vec::new();
-                let ret = Some(self.push_type(Type::Unknown));
+                let mut ret = None;
                 for expr in values.iter() {
                     let (inner_ret, ty) = self.expression(expr, ctx)?;
                     tys.push(ty);
-                    self.unify_option(*span, ctx, ret, inner_ret)?;
+                    ret = self.unify_option(*span, ctx, ret, inner_ret)?;
                 }
                 with_ret(ret, self.push_type(Type::Tuple(tys)))
             }
 
             E::Collection { collection: Collection::List, values, span } => {
                 let inner_ty = self.push_type(Type::Unknown);
-                let ret = Some(self.push_type(Type::Unknown));
+                let mut ret = None;
                 for expr in values.iter() {
                     let (e_ret, e) = self.expression(expr, ctx)?;
                     self.unify(*span, ctx, inner_ty, e)?;
-                    self.unify_option(*span, ctx, ret, e_ret)?;
+                    ret = self.unify_option(*span, ctx, ret, e_ret)?;
                 }
                 with_ret(ret, self.push_type(Type::List(inner_ty)))
             }
